@@ -2430,7 +2430,10 @@ FROM (
         child_sqls = []
         for child in node.children:
             child_sql = self.visit(child)
-            if not child_sql.strip().upper().startswith("SELECT"):
+            if child_sql.strip().upper().startswith("WITH"):
+                # A sub-expression rendered with CTEs (e.g. symdiff) is a query, not a table name
+                child_sql = f"SELECT * FROM ({child_sql})"
+            elif not child_sql.strip().upper().startswith("SELECT"):
                 child_sql = (
                     f"SELECT * FROM "
                     f"{quote_name(child.value if hasattr(child, 'value') else child_sql)}"
